@@ -510,6 +510,7 @@ func cmdCheck(args []string) int {
 		"method receivers and pointer parameters not compared with nil are non-nil; fields never compared with nil in the module are non-nil",
 		"state not declared guarded_by is not subject to interference from other goroutines",
 		"calls into dependencies change repository state only through their arguments (all repository state is forgotten when a func value is passed to a dependency)",
+		"a callee cannot write fields of struct types its package cannot (transitively) name; callbacks stored earlier in dependencies/other packages are not followed",
 		"interfaces do not hold typed-nil pointers (successful type assertions to pointer types yield non-nil)",
 	}, cfg.Trusted...)
 	var assumptions []string
